@@ -2,8 +2,28 @@
    without partial garbage.  Only statements; every proof is `exact <lemma>`.
    Real OS error kinds are NOT modelled (only Other / WriteZero / UnexpectedEof,
    the kinds the instrumented devices of the harness produce): the property is
-   labelled partial for that. *)
-From EP Require Import Base.Bytes IoFault.Spec IoFault.Model IoFault.Proofs.
+   labelled partial for that.
+
+   Audit round 1 additions (see notes/C16.md, "audit follow-up"):
+     - reader half: C16_read_fault / C16_read_fault_ok (every read program),
+       C16_readers_fault (the crate's readers)
+     - error propagation is part of the interpreters run_w / run_r.  The language
+       of IoFault/Propagate.v makes swallowing an error expressible:
+       C16_embed, C16_propagating_run, C16_propagating_fault,
+       C16_fault_iff_handles, C16_propagating_handles,
+       C16_swallowing_writer_refuted, C16_crate_writers_propagate; readers:
+       C16_read_embed, C16_read_propagating_run, C16_read_propagating_fault,
+       C16_swallowing_reader_refuted.  That a crate function IS the propagating
+       program given there is checked by the fault-injection run only.
+     - C16_slice_frame: the slice as a window of a larger memory, nothing outside
+       it changes on any outcome
+     - C16_header_writers_bytes replaces C16_header_writers (parts = C08 models)
+     - C16_limited_new has the monotonicity conjunct
+     - C16_slice_space: `len enc = LEN` is a hypothesis (LEN and layer are
+       parameters; that each function uses its own 14 / 16 is checked by the run)
+     - C16_builder_write_fault is an instance of C16_write_fault. *)
+From EP Require Import Base.Bytes IoFault.Spec IoFault.Model IoFault.Proofs
+  IoFault.ReadFault IoFault.Propagate IoFault.SliceFrame IoFault.WriterBytes.
 Local Open Scope N_scope.
 
 (* std::io::Write::write_all over the instrumented writer (any budget, any chunk
@@ -16,8 +36,11 @@ Theorem C16_write_all : forall s buf, 1 <= fs_chunk s ->
 Proof. exact write_all_closed_form. Qed.
 Print Assumptions C16_write_all.
 
-(* THE write-fault theorem, for every sequence of write_all calls with any final
-   value (every `write` of the crate is one, see Model.v): a sink failing at
+(* THE write-fault theorem, for every sequence of `write_all(..)?` calls with any
+   final value (the form every `write` of the crate is transliterated to, see
+   Model.v; propagation of each error is part of `run_w` - that the crate's
+   writers really propagate is C16_crate_writers_propagate below plus the
+   fault-injection run): a sink failing at
    byte k < total length gives Err(Io) - not Ok, not Panic, not the content
    verdict - and what was received is exactly the first k bytes of the complete
    encoding; k >= total gives the function's own result and the whole encoding. *)
@@ -33,17 +56,39 @@ Theorem C16_write_fault : forall p k chunk zero, 1 <= chunk ->
 Proof. exact write_fault_any. Qed.
 Print Assumptions C16_write_fault.
 
-(* the separately coded two-part writers (Ipv4Header::write/write_raw,
-   IpAuthHeader::write, Ipv6RawExtHeader::write, TcpHeader::write) and the
-   single-call writers have the complete encoding fixed ++ variable part *)
-Theorem C16_header_writers : forall h,
-  (wprog_bytes (ipv4_header_write h) = two_bytes h /\ wprog_verdict (ipv4_header_write h) = VOk) /\
-  (wprog_bytes (ip_auth_header_write h) = two_bytes h /\ wprog_verdict (ip_auth_header_write h) = VOk) /\
-  (wprog_bytes (ipv6_raw_ext_header_write h) = two_bytes h /\ wprog_verdict (ipv6_raw_ext_header_write h) = VOk) /\
-  (wprog_bytes (tcp_header_write h) = two_bytes h /\ wprog_verdict (tcp_header_write h) = VOk) /\
-  (forall b, wprog_bytes (single_write b) = b /\ wprog_verdict (single_write b) = VOk).
-Proof. exact two_part_writers. Qed.
-Print Assumptions C16_header_writers.
+(* the separately coded two-part writers with their parts taken from the
+   byte-level model of C08 (Roundtrip/*.v): for every well-formed header value the
+   concatenation of the program's write_all calls is the C08 `to_bytes` of that
+   header (and C08's `write` appends exactly that).  Replaces the former
+   C16_header_writers, which only unfolded the definitions (audit round 1). *)
+Theorem C16_header_writers_bytes :
+  (forall h, I4.wf_ip4 h = true ->
+     exists f o e,
+       I4.ip4_fixed h (I4.i4_header_checksum h) = Some f /\
+       I4.i4o_as_slice (I4.i4_options h) = Some o /\ I4.ip4_to_bytes h = Some e /\
+       len f = 20 /\
+       wprog_bytes (ipv4_header_write (mk_two f o)) = e /\
+       (forall out, I4.ip4_write_raw out h = Some (out ++ e))) /\
+  (forall h, AH.wf_ah h = true ->
+     exists f icv e,
+       AH.ah_fixed h = Some f /\ AH.ah_raw_icv h = Some icv /\ AH.ah_to_bytes h = Some e /\
+       len f = 12 /\
+       wprog_bytes (ip_auth_header_write (mk_two f icv)) = e /\
+       (forall out, AH.ah_write out h = Some (out ++ e))) /\
+  (forall h, RX.wf_rx h = true ->
+     exists p e,
+       RX.rx_payload h = Some p /\ RX.rx_to_bytes h = Some e /\
+       wprog_bytes (ipv6_raw_ext_header_write (mk_two [RX.rx_next_header h; RX.rx_header_length h] p)) = e /\
+       (forall out, RX.rx_write out h = Some (out ++ e))) /\
+  (forall h, T.wf_tcp h = true ->
+     exists o e,
+       T.opt_as_slice (T.options h) = Some o /\ T.to_bytes h = Some e /\
+       len (T.fixed_bytes h) = 20 /\
+       wprog_bytes (tcp_header_write (mk_two (T.fixed_bytes h) o)) = e /\
+       wprog_verdict (tcp_header_write (mk_two (T.fixed_bytes h) o)) = VOk /\
+       (forall out, T.write out h = Some (out ++ e))).
+Proof. exact header_writers_bytes. Qed.
+Print Assumptions C16_header_writers_bytes.
 
 (* extension walks, IpHeaders::write and the builder never hit an unwrap() on an
    absent header and never exhaust the loop fuel, for every extension struct,
@@ -176,12 +221,14 @@ Proof. exact lr_read_exact_within. Qed.
 Print Assumptions C16_limited_within.
 
 (* LimitedReader::new inside a plain read (IpHeaders::read): after it at most
-   max_len bytes are pulled, whatever the rest of the function does *)
+   max_len bytes are pulled, whatever the rest of the function does (the count of
+   pulled bytes only grows, so the truncated subtraction hides nothing) *)
 Theorem C16_limited_new : forall m ls off layer k s, 1 <= src_chunk s ->
   let st' := snd (run_r (PLimit m ls off layer k) (mk_rstate s None)) in
   fst (run_r (PLimit m ls off layer k) (mk_rstate s None)) <> QUnderflow /\
+  src_pulled s <= src_pulled (rs_src st') /\
   src_pulled (rs_src st') - src_pulled s <= m.
-Proof. exact limit_pull_bound. Qed.
+Proof. exact limit_pull_bound_mono. Qed.
 Print Assumptions C16_limited_new.
 
 (* no read program, from no consistent state, underflows *)
@@ -202,6 +249,213 @@ Theorem C16_ext_readers_total : forall (lim : bool) start s r, 1 <= src_chunk s 
   good (fst (run_r (x6_read lim start) st)) /\ good (fst (run_r (x4_read lim start) st)).
 Proof. exact ext_readers_good. Qed.
 Print Assumptions C16_ext_readers_total.
+
+(* ---- audit round 1: the reader half of the property's first sentence ---- *)
+
+(* THE read-fault theorem, for EVERY read program (any data-dependent sequence of
+   `read_exact(..)?` / start_layer / LimitedReader::new), every data d, chunk size
+   >= 1, both end-of-data behaviours, plain or inside any LimitedReader state:
+   let the run on d consume k bytes with outcome q.  On every source that ends at
+   j < k the run answers Err(Io) with the source's error kind - not Ok, not
+   Len/Content, no impossible index / fuel / underflow - having consumed exactly
+   the j bytes; on every source that ends at j >= k the outcome, the bytes
+   consumed and the LimitedReader state are the same (the outcome depends on the
+   consumed bytes only). *)
+Theorem C16_read_fault : forall p d c e lim, 1 <= c ->
+  let r := run_r p (start_st d c e lim) in
+  let k := src_pulled (rs_src (snd r)) in
+  k <= len d /\ src_data (rs_src (snd r)) = drop k d /\
+  (forall j, j < k ->
+     let rj := run_r p (start_st (take j d) c e lim) in
+     fst rj = QIo (io_kind e) /\ src_pulled (rs_src (snd rj)) = j /\ src_data (rs_src (snd rj)) = []) /\
+  (forall j, k <= j ->
+     let rj := run_r p (start_st (take j d) c e lim) in
+     fst rj = fst r /\ src_pulled (rs_src (snd rj)) = k /\ rs_lim (snd rj) = rs_lim (snd r)
+     /\ src_data (rs_src (snd rj)) = drop k (take j d)).
+Proof. exact read_fault_any. Qed.
+Print Assumptions C16_read_fault.
+
+(* the same in the form of C16_write_fault: a run that succeeds having pulled k
+   bytes fails with the reader's error at every earlier end, and still succeeds
+   with the same value on exactly those k bytes *)
+Theorem C16_read_fault_ok : forall p d c e lim a st', 1 <= c ->
+  run_r p (start_st d c e lim) = (QOk a, st') ->
+  let k := src_pulled (rs_src st') in
+  k <= len d /\ src_data (rs_src st') = drop k d /\
+  (forall j, j < k ->
+     let rj := run_r p (start_st (take j d) c e lim) in
+     fst rj = QIo (io_kind e) /\ src_pulled (rs_src (snd rj)) = j) /\
+  (exists st'', run_r p (start_st (take k d) c e lim) = (QOk a, st'')
+                /\ src_pulled (rs_src st'') = k /\ src_data (rs_src st'') = [] /\ rs_lim st'' = rs_lim st').
+Proof. exact read_fault_ok. Qed.
+Print Assumptions C16_read_fault_ok.
+
+(* instantiated for every reader of the crate that is modelled: the 14 plain
+   readers (header readers, IpHeaders::read with its LimitedReader inside) and
+   Ipv6Extensions / Ipv4Extensions ::read (lim = false) / ::read_limited (lim =
+   true, any LimitedReader with read_len <= max_len): for every data and every
+   end position j the answer is the reader's I/O error (j inside what the
+   fault-free run consumes) or the fault-free answer, which is Ok/Io/Len/Content *)
+Theorem C16_readers_fault :
+  (forall p d c e j, In p plain_readers -> 1 <= c ->
+     let r := run_r p (start_st d c e None) in
+     let rj := run_r p (start_st (take j d) c e None) in
+     good (fst r) /\
+     (j < src_pulled (rs_src (snd r)) -> fst rj = QIo (io_kind e) /\ src_pulled (rs_src (snd rj)) = j) /\
+     (src_pulled (rs_src (snd r)) <= j -> fst rj = fst r /\ src_pulled (rs_src (snd rj)) = src_pulled (rs_src (snd r)))) /\
+  (forall (lim : bool) start lr d c e j, 1 <= c -> lr_read lr <= lr_max lr ->
+     let l := if lim then Some lr else None in
+     (let r := run_r (x6_read lim start) (start_st d c e l) in
+      let rj := run_r (x6_read lim start) (start_st (take j d) c e l) in
+      good (fst r) /\
+      (j < src_pulled (rs_src (snd r)) -> fst rj = QIo (io_kind e) /\ src_pulled (rs_src (snd rj)) = j) /\
+      (src_pulled (rs_src (snd r)) <= j -> fst rj = fst r /\ src_pulled (rs_src (snd rj)) = src_pulled (rs_src (snd r)))) /\
+     (let r := run_r (x4_read lim start) (start_st d c e l) in
+      let rj := run_r (x4_read lim start) (start_st (take j d) c e l) in
+      good (fst r) /\
+      (j < src_pulled (rs_src (snd r)) -> fst rj = QIo (io_kind e) /\ src_pulled (rs_src (snd rj)) = j) /\
+      (src_pulled (rs_src (snd r)) <= j -> fst rj = fst r /\ src_pulled (rs_src (snd rj)) = src_pulled (rs_src (snd r))))).
+Proof. exact crate_readers_fault. Qed.
+Print Assumptions C16_readers_fault.
+
+(* ---- audit round 1: error propagation made expressible (IoFault/Propagate.v) ---- *)
+
+(* the language with an explicit result-handling node `XWriteThen buf k` (k sees
+   the Result of write_all) contains the old one: WWrite = `write_all(..)?`, and
+   the interpreters agree on every device *)
+Theorem C16_embed : forall (W E : Type) (wall : W -> bytes -> wres E * W) p w,
+  run_x wall (embed p) w = run_w wall p w.
+Proof. exact (@run_x_embed). Qed.
+Print Assumptions C16_embed.
+
+(* the propagating fragment (every write_all result is matched with
+   `Err(e) => return Err(e)`) runs, on every device, like the write program of
+   its success path: every theorem about write programs holds for it *)
+Theorem C16_propagating_run : forall (W E : Type) (wall : W -> bytes -> wres E * W) (p : xprog E),
+  propagating p -> forall w, run_x wall p w = run_w wall (strip p) w.
+Proof. exact (@run_x_strip). Qed.
+Print Assumptions C16_propagating_run.
+
+(* ... in particular the fault theorem *)
+Theorem C16_propagating_fault : forall (p : xprog iokind) k chunk zero, propagating p -> 1 <= chunk ->
+  let enc := wprog_bytes (strip p) in
+  let r := run_x io_write_all p (fresh_sink k chunk zero) in
+  (k < len enc ->
+     fst r = RIo (if zero then KWriteZero else KOther) /\ fs_got (snd r) = take k enc
+     /\ is_prefix (fs_got (snd r)) enc) /\
+  (len enc <= k -> fst r = ret_of (wprog_verdict (strip p)) /\ fs_got (snd r) = enc) /\
+  (fst (spec_fault_write enc k) = true <-> len enc <= k) /\
+  fs_got (snd r) = snd (spec_fault_write enc k).
+Proof. exact propagating_fault. Qed.
+Print Assumptions C16_propagating_fault.
+
+(* exactly which programs have the fault property on the fail-stop sink: those in
+   which, after every write that can fail, the error branch ends in
+   Err(Io(that kind)) (`handles`); the propagating ones are among them *)
+Theorem C16_fault_iff_handles : forall p : xprog iokind, fault_ok p <-> handles p.
+Proof. exact fault_iff_handles. Qed.
+Print Assumptions C16_fault_iff_handles.
+
+Theorem C16_propagating_handles : forall p : xprog iokind, propagating p -> handles p.
+Proof. exact propagating_handles. Qed.
+Print Assumptions C16_propagating_handles.
+
+(* NOT a defect of the crate: a program that swallows an error (mutant 1 of
+   notes/C16.md, TcpHeader::write with `let _ = writer.write_all(options);`) is
+   expressible and violates the fault property - Ok although the sink failed at
+   byte 21 of 24 *)
+Theorem C16_swallowing_writer_refuted :
+  ~ fault_ok (swallowing_tcp_write ex_tcp) /\
+  run_x io_write_all (swallowing_tcp_write ex_tcp) (fresh_sink 21 3 false)
+    = (ROk, mk_fsink 0 3 false (repeat 1 20 ++ [2])) /\
+  len (xprog_bytes (swallowing_tcp_write ex_tcp)) = 24.
+Proof. exact swallow_refuted. Qed.
+Print Assumptions C16_swallowing_writer_refuted.
+
+(* the crate's writers as written in the Rust source (`writer.write_all(..)?`,
+   `.map_err(WriteError::Io)?`, `.map_err(E::from)?`, a returned Result), for
+   every error type of the writer: each is in the propagating fragment and its
+   success path is the Model.v transliteration the other theorems are about *)
+Theorem C16_crate_writers_propagate : forall E : Type,
+  (forall b, @agrees E (x_single_write b) (single_write b)) /\
+  (forall h, @agrees E (x_ipv4_header_write h) (ipv4_header_write h) /\
+             @agrees E (x_ip_auth_header_write h) (ip_auth_header_write h) /\
+             @agrees E (x_ipv6_raw_ext_header_write h) (ipv6_raw_ext_header_write h) /\
+             @agrees E (x_tcp_header_write h) (tcp_header_write h)) /\
+  (forall x start, @agrees E (x_x4_write_internal x start) (x4_write_internal x start)) /\
+  (forall x first, @agrees E (x_x6_write_internal x first) (x6_write_internal x first)) /\
+  (forall h proto x, @agrees E (x_ip_headers_write_v4 h proto x) (ip_headers_write_v4 h proto x)) /\
+  (forall h nh x, @agrees E (x_ip_headers_write_v6 h nh x) (ip_headers_write_v6 h nh x)) /\
+  (forall c payload, @agrees E (x_final_write_with_net c payload) (final_write_with_net c payload)).
+Proof. exact crate_writers_propagate. Qed.
+Print Assumptions C16_crate_writers_propagate.
+
+(* readers: YReadThen n k (k sees Ok(bytes) / Err(Io) / Err(Len)); PRead =
+   `read_exact(..)?`; interpreters agree; the propagating fragment runs like its
+   success path and so has the read-fault property *)
+Theorem C16_read_embed : forall p st, run_y (embed_r p) st = run_r p st.
+Proof. exact run_y_embed. Qed.
+Print Assumptions C16_read_embed.
+
+Theorem C16_read_propagating_run : forall p, propagating_r p -> forall st, run_y p st = run_r (strip_r p) st.
+Proof. exact run_y_strip. Qed.
+Print Assumptions C16_read_propagating_run.
+
+Theorem C16_read_propagating_fault : forall p d c e lim, propagating_r p -> 1 <= c ->
+  let r := run_y p (start_st d c e lim) in
+  let k := src_pulled (rs_src (snd r)) in
+  k <= len d /\
+  (forall j, j < k ->
+     let rj := run_y p (start_st (take j d) c e lim) in
+     fst rj = QIo (io_kind e) /\ src_pulled (rs_src (snd rj)) = j) /\
+  (forall j, k <= j ->
+     let rj := run_y p (start_st (take j d) c e lim) in
+     fst rj = fst r /\ src_pulled (rs_src (snd rj)) = k).
+Proof. exact propagating_read_fault. Qed.
+Print Assumptions C16_read_propagating_fault.
+
+(* NOT a defect of the crate: seeded defect C16_3 (IpHeaders::read drops the error
+   of its second read_exact) is expressible, is outside the fragment and reports
+   success on a source that ended after 5 of 20 bytes *)
+Theorem C16_swallowing_reader_refuted :
+  ~ propagating_r swallowing_ip_headers_read /\
+  (let r := run_y swallowing_ip_headers_read (start_st (repeat 69 20) 3 false None) in
+   fst r = QOk [20] /\ src_pulled (rs_src (snd r)) = 20) /\
+  (let r := run_y swallowing_ip_headers_read (start_st (take 5 (repeat 69 20)) 3 false None) in
+   fst r = QOk [20] /\ src_pulled (rs_src (snd r)) = 5).
+Proof. exact swallow_read_refuted. Qed.
+Print Assumptions C16_swallowing_reader_refuted.
+
+(* ---- audit round 1: "never writes outside the given slice" (IoFault/SliceFrame.v) ---- *)
+
+(* the slice is the window [off, off+n) of a flat memory; what a function returns
+   as new slice contents is laid down from `off` on.  For write_to_slice of the
+   two headers, for every write program and every explicit program (also one that
+   swallows errors) over SliceCoreWrite, and for the builder's write_to_slice:
+   on EVERY outcome (Ok, space error, content error, modelled panic) the memory
+   keeps its length, everything before `off` and everything from off+n on is
+   unchanged; on a space error of the header functions / of the builder's up-front
+   check the whole memory is unchanged.  No hypothesis on LEN, encodings or cfg. *)
+Theorem C16_slice_frame : forall mem off n, off + n <= len mem ->
+  let win := window mem off n in
+  (forall LEN layer enc,
+     let r := header_write_to_slice LEN layer enc win in
+     untouched_outside mem (place mem off (snd r)) off n /\
+     window (place mem off (snd r)) off n = snd r /\
+     (match fst r with SOk _ _ => True | _ => place mem off (snd r) = mem end)) /\
+  (forall p pos,
+     let r := run_w sw_write_all p (mk_slicew win pos) in
+     untouched_outside mem (place mem off (sw_buf (snd r))) off n) /\
+  (forall (p : xprog space_req) pos,
+     let r := run_x sw_write_all p (mk_slicew win pos) in
+     untouched_outside mem (place mem off (sw_buf (snd r))) off n) /\
+  (forall c payload,
+     let r := final_write_to_slice c win payload in
+     untouched_outside mem (place mem off (snd r)) off n /\
+     window (place mem off (snd r)) off n = snd r /\
+     (n < final_size c (len payload) -> fst r = BSpace (final_size c (len payload)) /\ place mem off (snd r) = mem)).
+Proof. exact slice_frame. Qed.
+Print Assumptions C16_slice_frame.
 
 (* ---- non-vacuity *)
 Definition ex_hop := mk_ext 60 8 [60; 0; 1; 2; 3; 4; 5; 6].
@@ -258,3 +512,75 @@ Proof. split; vm_compute; reflexivity. Qed.
 
 Example C16_ex_reader_in : In ip_headers_read plain_readers.
 Proof. cbn. tauto. Qed.
+
+(* ---- audit round 1 examples *)
+
+(* Ipv4Header::read, ihl = 6 (24 bytes): succeeds having pulled 24; a source that
+   ends after 21 bytes (inside the options) gives UnexpectedEof having pulled 21 *)
+Definition ex_v4h : bytes := [70; 0; 0; 24; 0; 0; 0; 0; 64; 17; 0; 0] ++ repeat 10 8 ++ [1; 1; 1; 0; 9; 9].
+Example C16_ex_read_fault :
+  (let r := run_r ipv4_header_read (start_st ex_v4h 5 false None) in
+   fst r = QOk [24] /\ src_pulled (rs_src (snd r)) = 24 /\ src_data (rs_src (snd r)) = [9; 9]) /\
+  (let r := run_r ipv4_header_read (start_st (take 21 ex_v4h) 5 false None) in
+   fst r = QIo KEof /\ src_pulled (rs_src (snd r)) = 21) /\
+  (let r := run_r ipv4_header_read (start_st (take 21 ex_v4h) 5 true None) in
+   fst r = QIo KOther /\ src_pulled (rs_src (snd r)) = 21).
+Proof. repeat split; vm_compute; reflexivity. Qed.
+
+(* IpHeaders::read over IPv6 + hop-by-hop (8) + fragment (8), payload length 16:
+   56 bytes pulled; cut inside the fragment header (52): UnexpectedEof *)
+Definition ex_v6chain : bytes :=
+  [96;0;0;0; 0;16; 0; 64] ++ repeat 1 16 ++ repeat 2 16 ++ [44; 0; 1; 2; 3; 4; 5; 6] ++ [17; 0; 0; 0; 0; 0; 0; 1] ++ [7; 7; 7].
+Example C16_ex_read_fault_ip :
+  In ip_headers_read plain_readers /\
+  (let r := run_r ip_headers_read (start_st ex_v6chain 7 false None) in
+   fst r = QOk [17; 17] /\ src_pulled (rs_src (snd r)) = 56) /\
+  (let r := run_r ip_headers_read (start_st (take 52 ex_v6chain) 7 false None) in
+   fst r = QIo KEof /\ src_pulled (rs_src (snd r)) = 52) /\
+  (let r := run_r ip_headers_read (start_st (take 56 ex_v6chain) 7 false None) in
+   fst r = QOk [17; 17] /\ src_pulled (rs_src (snd r)) = 56).
+Proof. split; [cbn; tauto|]. repeat split; vm_compute; reflexivity. Qed.
+
+(* the propagating TcpHeader::write on the input of the refuting witness: Err *)
+Example C16_ex_propagating_tcp :
+  propagating (@x_tcp_header_write iokind ex_tcp) /\
+  strip (@x_tcp_header_write iokind ex_tcp) = tcp_header_write ex_tcp /\
+  run_x io_write_all (x_tcp_header_write ex_tcp) (fresh_sink 21 3 false)
+    = (RIo KOther, mk_fsink 0 3 false (repeat 1 20 ++ [2])).
+Proof.
+  split; [|split; [reflexivity | vm_compute; reflexivity]].
+  apply (C16_crate_writers_propagate iokind).
+Qed.
+
+(* a well-formed TCP header with 4 option bytes: the C08 encoding has 24 bytes and
+   is what the two write_all calls of the C16 program deliver *)
+Definition ex_tcp_hdr : T.TcpHeader :=
+  T.Build_TcpHeader 80 443 1 2 false false true false false true false false false 1024 0 0
+    (T.Build_TcpOptions 4 ([2; 4; 5; 180] ++ repeat 0 36)).
+Example C16_ex_tcp_bytes :
+  T.wf_tcp ex_tcp_hdr = true /\
+  T.opt_as_slice (T.options ex_tcp_hdr) = Some [2; 4; 5; 180] /\
+  T.to_bytes ex_tcp_hdr
+    = Some (wprog_bytes (tcp_header_write (mk_two (T.fixed_bytes ex_tcp_hdr) [2; 4; 5; 180]))) /\
+  len (wprog_bytes (tcp_header_write (mk_two (T.fixed_bytes ex_tcp_hdr) [2; 4; 5; 180]))) = 24.
+Proof. repeat split; vm_compute; reflexivity. Qed.
+
+(* an Ethernet header written into the window [2,17) of a 20-byte memory (one byte
+   of slack inside the window): the 2 bytes before, the slack byte and the 3
+   bytes behind keep their values; a 13-byte window: nothing changes at all *)
+Example C16_ex_slice_frame :
+  let mem := [8; 8] ++ repeat 255 15 ++ [9; 9; 9] in
+  place mem 2 (snd (header_write_to_slice 14 L_ETH (repeat 1 14) (window mem 2 15)))
+    = [8; 8] ++ repeat 1 14 ++ [255] ++ [9; 9; 9] /\
+  place mem 2 (snd (header_write_to_slice 14 L_ETH (repeat 1 14) (window mem 2 13))) = mem.
+Proof. split; vm_compute; reflexivity. Qed.
+
+(* what would be a violation is expressible: contents one byte longer than the
+   window overwrite the byte behind it *)
+Example C16_ex_overrun_visible :
+  let mem := [9; 9; 1; 2; 3; 7; 7] in
+  window mem 2 3 = [1; 2; 3] /\
+  place mem 2 [4; 5; 6] = [9; 9; 4; 5; 6; 7; 7] /\
+  place mem 2 [4; 5; 6; 0] = [9; 9; 4; 5; 6; 0; 7] /\
+  ~ untouched_outside mem (place mem 2 [4; 5; 6; 0]) 2 3.
+Proof. exact place_overrun_visible. Qed.
